@@ -167,7 +167,7 @@ Section Hooks.
     fail_if ((url || urlf) && (tok || tokf)) E_SLACK_PAIR ;;;
     if ib_update b then
       match ib_api_url b with
-      | None => Ok tt                      (* compared only when an api_url is given (fix 958998d; was a nil dereference) *)
+      | None => Ok tt                      (* compared only when an api_url is given (fix a02de80; was a nil dereference) *)
       | Some u => fail_if (negb (String.eqb u "https://slack.com/api/chat.postMessage")) E_SLACK_UPDATE
       end
     else Ok tt.
@@ -216,7 +216,7 @@ Definition global_checks (g : dglobal) : res unit :=
   (if pair_any (pair_at g 0) && pair_any (pair_at g 1) then
      match g_slack_api_url g, g_slack_app_url g with
      | Some a, Some b => fail_if (negb (String.eqb a b)) E_GLOBAL_PAIR
-     | _, _ => Err E_GLOBAL_PAIR          (* a nil URL counts as different (fix f0e00c0; was a nil dereference) *)
+     | _, _ => Err E_GLOBAL_PAIR          (* a nil URL counts as different (fix 77e3ec9; was a nil dereference) *)
      end
    else Ok tt) ;;;
   fail_if (existsb pair_both (drop 2 (g_pairs g))) E_GLOBAL_PAIR.
@@ -271,7 +271,7 @@ Definition body_check (g : dglobal) (kind : string) (b : ibody) : res unit :=
   else first_err (map (fun alts => fail_if (negb (req_met g b alts)) E_INT_SETTING) (kind_reqs kind)).
 
 (* a null item: 14 kinds reject it ("missing <kind> config"); for slack, opsgenie, wechat and rocketchat the loop
-   replaces it IN THE LIST by an empty config (fix 1f76f27: before, only the loop variable was replaced and the nil
+   replaces it IN THE LIST by an empty config (fix 632c52c: before, only the loop variable was replaced and the nil
    stayed in the receiver) and validates that *)
 Definition empty_body : ibody := IBody 0 false [] None false.
 Definition null_tolerated (kind : string) : bool := smem kind ["slack"; "opsgenie"; "wechat"; "rocketchat"].
@@ -322,7 +322,7 @@ Fixpoint uniq_check (seen : list string) (l : list string) : res unit :=
 (* the validated configuration *)
 Record cfg := Cfg { c_route : droute; c_receivers : list string; c_intervals : list string }.
 
-(* Config.UnmarshalYAML first restores an empty global block, and (fix 544060a) a global http_config that was
+(* Config.UnmarshalYAML first restores an empty global block, and (fix 92b9de1) a global http_config that was
    written as null; the receiver loops below still dereference c.Global.HTTPConfig *)
 Definition restore_http (g : dglobal) : dglobal :=
   if Nat.eqb (g_http g) 0 then DGlobal 1 (g_slack_api_url g) (g_slack_app_url g) (g_pairs g) (g_provides g) else g.
